@@ -142,19 +142,15 @@ func (t *Timer) arm(d time.Duration) {
 	})
 }
 
-// Stop prevents the timer from firing (Go >= 1.23 semantics: no stale value is left in the channel).
+// Stop prevents the timer from firing. The module under test declares go 1.20, so in production its timers
+// have the pre-1.23 semantics (asynctimerchan=1): the channel is buffered and a value that was already sent
+// stays there after Stop or Reset until somebody receives it. The simulated timers reproduce exactly that
+// (the code's own "if !t.Stop() { drain }" idiom is what has to cope with it).
 func (t *Timer) Stop() bool {
 	if t.real != nil {
 		return t.real.Stop()
 	}
-	active := t.s.delTimer(t.ev)
-	if t.c != nil {
-		select {
-		case <-t.c:
-		default:
-		}
-	}
-	return active
+	return t.s.delTimer(t.ev)
 }
 
 func (t *Timer) Reset(d time.Duration) bool {
